@@ -82,6 +82,12 @@ func NewCompiler(
 
 	// add builtin functions to the symbol table
 	for idx, fn := range builtinFuncs {
+		if s, _, ok := symbolTable.Resolve(fn.Name, false); ok &&
+			s.Scope != ScopeBuiltin {
+			// a variable the embedder pre-defined under this name (e.g.
+			// Script.Add("len", v)) keeps shadowing the builtin function
+			continue
+		}
 		symbolTable.DefineBuiltin(idx, fn.Name)
 	}
 
